@@ -1,0 +1,12 @@
+//go:build verif
+
+package cmd
+
+import "context"
+
+// VerifExecute runs the root command in-process with the given arguments and
+// returns its error instead of exiting. Used by the verification harness.
+func VerifExecute(ctx context.Context, args []string) error {
+	rootCmd.SetArgs(args)
+	return rootCmd.ExecuteContext(ctx)
+}
